@@ -90,7 +90,7 @@ func checkKeyComparators(w *World, r *Report) {
 							lossy = w.posOf(y.Pos())
 						}
 					case *ssa.Call:
-						if h := y.Call.StaticCallee(); h != nil && h.Pkg != nil && h.Pkg.Pkg.Path() == twigPath {
+						if h := y.Call.StaticCallee(); h != nil && isTwigFn(h) {
 							scan(h, depth+1)
 						}
 					}
